@@ -7,6 +7,8 @@ PLAIN = ['x', 'y', 'z', 'int', 'w1']
 PUNCT = ['+', '-', '*', ';', '=', '<<', '[', ']', '.', '->', '?', ':', '{', '}', '&&', '%=']
 LITS = ['1', '2', '0x1f', '1.5e+3', '"s"', '"a\\"b"', "'c'", "'\\''", '"\\\\"', 'L"w"', '""']
 PARAMS = ['p', 'q', 'r', 's']
+REDEF_SPELLINGS = [("','", "';'"), ("'\\0'", "L'\\0'"), ("'a'", "'b'"), ('@', '`'), ('x @ y', 'x ` y'), ('1', '01'), ('0x10', '0X10'), ('1.0', '1.00'),
+                   ('"a"', '"b"'), ('"a"', 'L"a"'), ('u8"a"', 'u"a"'), ('ab', 'aB'), ("L'x'", "U'x'"), ('1 + 2', '1 - 2'), ('<<', '<< =')]
 AVOID = set()    # experiments: names of known deviation patterns the generator should not produce
 
 
@@ -292,6 +294,13 @@ def gen_span_case(rng):
 
 def gen_redef_pair(rng):
     """(text, expected) expected in {'ok','reject'}: a macro defined twice (6.10.3p2)"""
+    if rng.random() < 0.08:
+        # spelling differences inside every kind of token that has a spelling (character constants, other characters,
+        # numbers, strings, identifiers), and the same pairs written identically
+        a, b = rng.choice(REDEF_SPELLINGS)
+        same = rng.random() < 0.3
+        head = rng.choice(['#define RD ', '#define RD(x) x ', '#define RD(...) __VA_ARGS__ '])
+        return head + a + '\n' + head + (a if same else b) + '\nRD\n', 'ok' if same else 'reject', 'spelling'
     ms = MacroSet()
     name, ps, var, body, text = gen_define(rng, ms)
     while '\n' in text:
@@ -325,7 +334,9 @@ def gen_redef_pair(rng):
             expect = 'reject'
     elif kind == 'token' and body:
         i = rng.randrange(len(body))
-        repl = rng.choice(['x', '7', '+', '"s"'])
+        repl = rng.choice(['x', '7', '+', '"s"', "'c'", "'d'", "L'c'", '@', '`', '"t"', '8', '-'])
+        if body[i][:1] == "'" and rng.random() < 0.7:
+            repl = rng.choice(["'d'", "L" + body[i], "'\\0'"])      # same kind of token, another spelling
         if repl != body[i] and not (i > 0 and body[i - 1] == '#'):
             body2[i] = repl
             if i + 1 < len(body2) and needs_space(repl, body2[i + 1]) and not seps2[i + 1]:
